@@ -35,9 +35,7 @@ func c18Case(r *evid.Run, tier string, idx int, g *rng.R) {
 	if idx%25 == 11 {
 		// a wide element and an element with many attributes: sizes around the usual strategy thresholds
 		ws := adoc.Thresholds[:8]
-		if tier == "thorough" {
-			ws = adoc.Thresholds[:9]
-		}
+		// (the same widths in both tiers: nested predicates over the sibling axes of a w-wide element cost up to w^4)
 		adoc.Widen(g, d, rng.Pick(g, ws), false)
 		adoc.ManyAttrs(g, d, rng.Pick(g, []int{5, 9, 12, 16, 17, 40}))
 		d.Finish()
@@ -292,7 +290,17 @@ func c18Case(r *evid.Run, tier string, idx int, g *rng.R) {
 		xast.Fn("position"), xast.Fn("last"),
 		xast.Binary{Op: "=", L: xast.Fn("position"), R: xast.Fn("last")},
 	)
-	for _, node := range d.All {
+	starts := d.All
+	if len(starts) > 120 {
+		// wide documents: a sample of start nodes (every expression from every node would be quadratic in the width)
+		starts = nil
+		for _, node := range d.All {
+			if node.Kind == adoc.Root || g.P(8) {
+				starts = append(starts, node)
+			}
+		}
+	}
+	for _, node := range starts {
 		for _, e := range rels {
 			v, ok := w.check(r, "from-node/"+node.Kind.String(), idx, node, e, false)
 			r.Tab("start_kind", node.Kind.String(), 1)
